@@ -303,6 +303,7 @@ class Interpreter(BaseInterpreter[TContext, TEvent]):
         #    and pop itself from `self._actors` — mutating the dict mid-loop
         #    and raising "dictionary changed size during iteration".
         for actor in list(self._actors.values()):
+            self._unregister_from_system(actor)
             await actor.stop()
         self._actors.clear()
 
@@ -980,6 +981,7 @@ class Interpreter(BaseInterpreter[TContext, TEvent]):
                 "actor before spawning its replacement.",
                 actor_id,
             )
+            self._unregister_from_system(previous)
             stopped = previous.stop()
             if inspect.isawaitable(stopped):
                 await stopped
